@@ -32,6 +32,7 @@ func runC07(c *Ctx) {
 	c.Rule("A3 quantisation gate: every call of the level quantiser on the alpha plane is control-dependent on a comparison of the alpha quality with 100; resolveAlphaQuality maps the negative sentinel to 100")
 	c.Rule("I1 index form (as C19) for imageHasAlpha and extractAlphaWith")
 	c.Rule("K4 alpha filters (S8 kernel evaluator, 5x4 plane, all sample values): the inverse filter dispatched on filter value k has, cell for cell, the normal form of the independent implementation's inverse filter k (golang.org/x/image/webp, ref/ximage_kernels.json), and the forward filter dispatched on k followed by that inverse is the identity; functions are found by signature and by the constant they are dispatched on, not by name")
+	c.Rule("K6 unfilter reached: the function that dispatches on the filter code, and level by level its callers inside the package, return successfully only through that dispatch (accepted bypass: a branch on the filter code itself)")
 	c.NotCovered("the filters on planes of other sizes than 5x4 (the loops are uniform in the cell classes first cell / first row / first column / interior, but that uniformity is not proven); exactness of the lossless coder used for the plane (C01); the number of levels kept by quantisation")
 	for i, cf := range c.configsFor() {
 		p := c.load(cf[0], cf[1])
@@ -47,6 +48,7 @@ func runC07(c *Ctx) {
 		} else {
 			c.Table("ref/ximage_kernels.json")
 			kernelAlphaFilters(c, p, kref)
+			kernelUnfilterReached(c, p)
 		}
 		c07Gate(c, p)
 		c19Analyse(c, p)
